@@ -76,6 +76,43 @@ def _reads_through_context(expr, ctxname="context") -> list[str]:
     return bad
 
 
+def globals_by_reference(repo: Repo):
+    """None when ``RenderContext.__init__`` keeps the ``globals`` mapping it is given by reference
+    whenever one is given (a replacement only under ``globals is None``); otherwise (text, line) of
+    the offending binding.  Shared with C14 (the innermost binding of ``render ... as x`` lives in
+    that mapping)."""
+    from ..guards import canon, conditions, conjuncts
+
+    init = repo.own_method(CTX, "__init__")
+    is_none = canon(ast.parse("globals is None", mode="eval").body)
+
+    def value_ok(e, conds) -> bool:
+        if is_name(e, "globals"):
+            return True
+        if isinstance(e, ast.IfExp):
+            pos = [canon(c) for c in conjuncts(e.test)]
+            neg = [canon(c) for c in conjuncts(ast.UnaryOp(op=ast.Not(), operand=e.test))]
+            return value_ok(e.body, conds + pos) and value_ok(e.orelse, conds + neg)
+        # any other object may stand in only where no mapping was given
+        return is_none in conds
+
+    gl = None
+    for st, cs in conditions(init.node):
+        tgt = st.targets[0] if isinstance(st, ast.Assign) else st.target if isinstance(st, ast.AnnAssign) else None
+        if tgt is None or getattr(st, "value", None) is None:
+            continue
+        conds = [canon(c) for c in cs]
+        if is_self_attr(tgt) and tgt.attr == "globals":
+            gl = st
+            if not value_ok(st.value, conds):
+                return text(st.value), st.lineno
+        if is_name(tgt, "globals") and not value_ok(st.value, conds):
+            return f"{text(st.value)} (via `{text(st)[:50]}`)", st.lineno
+    if gl is None:
+        raise AnchorMissing("RenderContext.__init__ no longer assigns self.globals")
+    return None
+
+
 def run(repo: Repo) -> Result:
     res = Result(PID)
     res.rules = ["C15-COPY", "C15-NS", "C15-CTOR", "C15-FRESH", "C15-INIT", "C15-PARENT", "C15-DISABLED"]
@@ -241,18 +278,10 @@ def run(repo: Repo) -> Result:
     # variable / forloop in it afterwards; an empty ReadOnlyChainMap is falsy, so a truthiness
     # default (`globals or {}`) silently swaps it for a fresh dict.
     res.ob(f"{init.qual}:globals-by-reference")
-    gl = None
-    for st in walk_no_nested(init.node):
-        tgt = st.targets[0] if isinstance(st, ast.Assign) else st.target if isinstance(st, ast.AnnAssign) else None
-        if tgt is not None and is_self_attr(tgt) and tgt.attr == "globals":
-            gl = st.value
-    if gl is None:
-        raise AnchorMissing("RenderContext.__init__ no longer assigns self.globals")
-    by_ref = is_name(gl, "globals") or (
-        isinstance(gl, ast.IfExp) and is_name(gl.body, "globals") and text(gl.test) == "globals is not None"
-    )
-    if not by_ref:
-        res.add("C15-INIT", init.qual, f"globals={text(gl)[:40]}", f"RenderContext.__init__ binds `self.globals = {text(gl)}`: an empty (falsy) namespace chain is replaced by a different object, so the bound variable that `render ... with/for` adds to it afterwards never reaches the partial", init.file, gl.lineno)
+    bad = globals_by_reference(repo)
+    if bad is not None:
+        gtxt, gline = bad
+        res.add("C15-INIT", init.qual, f"globals={gtxt[:40]}", f"RenderContext.__init__ binds `self.globals = {gtxt}`: an empty (falsy) namespace chain is replaced by a different object, so the bound variable that `render ... with/for` adds to it afterwards never reaches the partial", init.file, gline)
 
     # ---- C15-PARENT: a copy reaches back into its parent for accounting only ---------------
     allowed_parent_attrs = {"_copy_depth", "loop_iteration_carry", "local_namespace_size_carry", "env", "template", "disabled_tags", "parent_context", "get_size_of_locals", "raise_for_loop_limit"}
